@@ -104,18 +104,33 @@ func VerifC06_Entries() {
 	if v2 {
 		op, hdr = 0x122f, 35
 	}
-	for _, want := range t.wantEntries() {
+	wants := t.wantEntries()
+	seen := make([]bool, len(wants))
+	for range wants {
 		out := t.request(verifReadCmd(op, 0, 0))
-		verifrt.Assert(len(out) == hdr+len(want.name), "entries.length")
-		if len(out) != hdr+len(want.name) {
+		verifrt.Assert(len(out) >= hdr && int64(verifGet64(out)) != -1, "entries.length")
+		if len(out) < hdr {
 			return
 		}
+		// the order of the entries is the file system's: match by name, each exactly once
+		name := string(out[hdr:])
+		idx := -1
+		for i, w := range wants {
+			if !seen[i] && w.name == name {
+				idx = i
+			}
+		}
+		verifrt.Assert(idx >= 0, "entries.name")
+		if idx < 0 {
+			return
+		}
+		seen[idx] = true
+		want := wants[idx]
 		verifrt.Assert(int64(verifGet64(out)) == want.size, "entries.size")
 		if v2 {
 			verifrt.Assert(int64(verifGet64(out[8:])) == want.mtime && int64(verifGet64(out[16:])) == want.mtime && int64(verifGet64(out[24:])) == want.mtime, "entries.times")
 		}
 		verifrt.Assert(int(out[hdr-3])<<8|int(out[hdr-2]) == len(want.name) && (out[hdr-1] == 1) == want.dir && out[hdr-1] <= 1, "entries.namelen-and-kind")
-		verifrt.Assert(string(out[hdr:]) == want.name, "entries.name")
 	}
 	for k := 0; k < 2; k++ {
 		out := t.request(verifReadCmd(op, 0, 0))
@@ -135,18 +150,34 @@ func VerifC06_ReadDir() {
 		return
 	}
 	verifrt.Assert(int(verifGet64(out)) == len(want), "readdir.count")
-	for i, e := range want {
+	seen := make([]bool, len(want))
+	for i := range want {
 		rec := out[8+529*i:]
-		verifrt.Assert(int64(verifGet64(rec)) == e.size && int64(verifGet64(rec[8:])) == e.mtime && (rec[16] == 1) == e.dir && rec[16] <= 1, "readdir.fields")
-		nameOK := true
-		for k := 0; k < 512; k++ {
-			c := byte(0)
-			if k < len(e.name) {
-				c = e.name[k]
+		// order is the file system's: find the record's name among the expected entries
+		idx := -1
+		for k, e := range want {
+			if seen[k] {
+				continue
 			}
-			nameOK = nameOK && rec[17+k] == c
+			nameOK := true
+			for c := 0; c < 512; c++ {
+				ch := byte(0)
+				if c < len(e.name) {
+					ch = e.name[c]
+				}
+				nameOK = nameOK && rec[17+c] == ch
+			}
+			if nameOK {
+				idx = k
+			}
 		}
-		verifrt.Assert(nameOK, "readdir.name-field")
+		verifrt.Assert(idx >= 0, "readdir.name-field")
+		if idx < 0 {
+			return
+		}
+		seen[idx] = true
+		e := want[idx]
+		verifrt.Assert(int64(verifGet64(rec)) == e.size && int64(verifGet64(rec[8:])) == e.mtime && (rec[16] == 1) == e.dir && rec[16] <= 1, "readdir.fields")
 	}
 }
 
@@ -216,9 +247,17 @@ func VerifC06_Reopen() {
 	} else {
 		want = []string{"f2"}
 	}
-	for _, name := range want {
+	got := make([]bool, len(want))
+	for range want {
 		out := t.request(verifReadCmd(0x122b, 0, 0))
-		verifrt.Assert(len(out) == 11+len(name) && string(out[11:]) == name, "reopen.entry")
+		hit := false
+		for i, name := range want {
+			if !got[i] && len(out) == 11+len(name) && string(out[11:]) == name {
+				got[i], hit = true, true
+				break
+			}
+		}
+		verifrt.Assert(hit, "reopen.entry")
 	}
 	out := t.request(verifReadCmd(0x122b, 0, 0))
 	verifrt.Assert(len(out) == 11 && int64(verifGet64(out)) == -1, "reopen.end-marker")
